@@ -6,7 +6,9 @@ CHECK = {'rule': 'four rapid-generated case kinds plus one exhaustive part. maps
          'and read back to the same map by the library reader and by encoding/json; load: 1-40 (thorough: up to 1500) translation files with '
          'globally disjoint keys in generated directory layouts on memfs plus files without the .json suffix, loaded 1-3 times with GOMAXPROCS '
          '1/2/4/8, workers.MaxJob 1/2/3/8/16 and the process confined to 1, 2 or all CPUs (OS time-slicing of the Go threads), then Translate(k)=v '
-         'for every key. Exhaustive: every string of length <=3 (thorough 4) over 14 character-class representatives written+read back and read in 4 '
+         'for every key; an eighth of the small load cases inject one I/O failure into the load (a Load that returns nil must still have made every key '
+         'translatable); config read cases also boot an application on an in-memory working directory with the document as the config file of the chosen '
+         'environment (Params.Env / --env= / default) and compare its config scope. Exhaustive: every string of length <=3 (thorough 4) over 14 character-class representatives written+read back and read in 4 '
          'uniform spellings. Non-trivial: a string value that contains a quote, backslash or control character, or nesting depth >= 2, or >= 3 '
          'files. Distinct = distinct case JSON (FNV-64).',
  'assumptions': ["encoding/json (UseNumber) is the 'standard JSON decoder' of the statement",
